@@ -36,9 +36,11 @@ Diff(e, r) ==
 \* /samples/ after a successful scrape of an assigned target: the per-metric counts add up to
 \* the totals of the payload (C14)
 SamplesBad(w, s) ==
-  /\ s.a = "Scrape" /\ s.ok /\ s.h \in DOMAIN w.status
-  /\ (~s.hasStat \/ s.sumScraped # s.kept \/ s.sumTotal # s.total
-        \/ s.statScraped # s.kept \/ s.statTotal # s.total \/ ~s.jobOK)
+  \/ /\ s.a = "Scrape" /\ s.ok /\ s.h \in DOMAIN w.status
+     /\ (~s.hasStat \/ s.sumScraped # s.kept \/ s.sumTotal # s.total
+           \/ s.statScraped # s.kept \/ s.statTotal # s.total \/ ~s.jobOK)
+  \* ... and the per-metric counts recorded for the targets scraped EARLIER are still what their pages said
+  \/ (s.a = "Scrape" /\ ~s.metricsOK)
 
 RECURSIVE Walk(_, _, _, _)
 Walk(id, w, steps, k) ==
